@@ -24,6 +24,8 @@ XmlKnobs draw_knobs(Rng& rng)
     k.crlf = rng.chance(0.15);
     // the labels of a location may come in either order (since the fix of F-C04-3 an ordinary serialisation choice)
     k.rate_before_invariant = rng.chance(0.25);
+    if (rng.chance(0.06))
+        k.big_text_lines = rng.range(100, 900);
     return k;
 }
 
@@ -33,7 +35,7 @@ std::string knobs_str(const XmlKnobs& k)
     os << "decl=" << k.xml_decl << " doctype=" << k.doctype << " indent=" << k.indent << " sq=" << k.single_quotes
        << " coords=" << k.coords << " shuffle=" << k.attr_shuffle << " esc=" << k.text_escape
        << " comments=" << k.comments_between << " empty=" << k.empty_elems << " pad=" << k.pad_text << " crlf=" << k.crlf
-       << " rate_first=" << k.rate_before_invariant << " comment_in_text=" << k.comment_in_text;
+       << " big=" << k.big_text_lines << " rate_first=" << k.rate_before_invariant << " comment_in_text=" << k.comment_in_text;
     return os.str();
 }
 
@@ -246,7 +248,16 @@ std::string render_xml(const Model& m, const XmlKnobs& k, Rng& rng)
         x.os << "\n";
     x.os << "<nta>";
     x.level = 1;
-    x.block("declaration", join_decls(m.gdecls), true);
+    {
+        std::string g = join_decls(m.gdecls);
+        if (k.big_text_lines > 0) {
+            std::string c = "/*\n";
+            for (int i = 0; i < k.big_text_lines; ++i)
+                c += " * line " + std::to_string(i) + " of a long header comment with <, > and & in it\n";
+            g = c + " */\n" + g;
+        }
+        x.block("declaration", g, true);
+    }
     for (auto& t : m.templs) {
         x.nl();
         x.os << "<template>";
